@@ -913,3 +913,163 @@ func (g *G) GridTyped(t geom.GeometryType) geom.Geometry {
 	}
 	return g.Typed(t, 0)
 }
+
+// ConcurrentPair returns two valid operands built from three or more segments with lattice end points
+// that all pass through one point P which is not a lattice point (P = (px/q, py/q), q in 3..7) and lies
+// strictly inside each of them: the crossing has to be computed, and different pairs of segments may
+// round it differently. Segments appear as lines or as edges of triangles, spread over both operands.
+// Only meaningful on non-jittered lattices; ok is false when no configuration was found.
+func (g *G) ConcurrentPair() (a, b geom.Geometry, ok bool) {
+	if g.Cfg.GP {
+		return a, b, false
+	}
+	S := g.Cfg.Side
+	if S > 16 {
+		S = 16
+	}
+	if S < 4 {
+		return a, b, false
+	}
+	var parts [2][]geom.Geometry
+	points := g.R.Range(1, 5) // several concurrency points per pair of operands
+	found := 0
+	for tries := 0; tries < 40 && found < points; tries++ {
+		// mostly dyadic P: exactly representable, hence exactly on the boundary between two of the overlay's
+		// snapping buckets, so that crossings computed one ulp apart by different pairs fall on both sides
+		q := []int{2, 4, 8, 4, 2, 8, 3, 5, 7}[g.R.Intn(9)]
+		px, py := g.R.Range(q, (S-1)*q), g.R.Range(q, (S-1)*q)
+		axis := g.R.Intn(4) // 0: P on a horizontal lattice line, 1: on a vertical one (one ordinate of the crossing is then exact)
+		if axis == 0 {
+			py -= py % q
+		} else if axis == 1 {
+			px -= px % q
+		}
+		if px%q == 0 && py%q == 0 {
+			continue
+		}
+		// all lattice segments AB in the box with P strictly inside
+		type sg struct{ a, b ip }
+		var segs []sg
+		for ax := 0; ax <= S; ax++ {
+			for ay := 0; ay <= S; ay++ {
+				// direction from A to P scaled by q: (px - q ax, py - q ay); B = A + (t/q)(P-A) must be lattice
+				dx, dy := px-q*ax, py-q*ay
+				for t := q + 1; t <= 6*q; t++ { // t > q puts P strictly inside AB
+					if (t*dx)%(q*q) != 0 || (t*dy)%(q*q) != 0 {
+						continue
+					}
+					bx, by := ax+t*dx/(q*q), ay+t*dy/(q*q)
+					if bx < 0 || by < 0 || bx > S || by > S || (bx == ax && by == ay) {
+						continue
+					}
+					if ax < bx || (ax == bx && ay < by) {
+						segs = append(segs, sg{ip{ax, ay}, ip{bx, by}})
+					}
+				}
+			}
+		}
+		// one segment per direction
+		byDir := map[[2]int][]sg{}
+		for _, s := range segs {
+			dx, dy := s.b.x-s.a.x, s.b.y-s.a.y
+			gc := gcdInt(absInt(dx), absInt(dy))
+			byDir[[2]int{dx / gc, dy / gc}] = append(byDir[[2]int{dx / gc, dy / gc}], s)
+		}
+		if len(byDir) < 3 {
+			continue
+		}
+		var dirs [][2]int
+		for d := range byDir {
+			dirs = append(dirs, d)
+		}
+		sort.Slice(dirs, func(i, j int) bool { return dirs[i][0] < dirs[j][0] || (dirs[i][0] == dirs[j][0] && dirs[i][1] < dirs[j][1]) })
+		{
+			sh := make([][2]int, len(dirs))
+			for i, j := range g.R.Perm(len(dirs)) {
+				sh[i] = dirs[j]
+			}
+			dirs = sh
+		}
+		// the axis-parallel segment through P first, when there is one
+		for i, d := range dirs {
+			if (axis == 0 && d[1] == 0) || (axis == 1 && d[0] == 0) {
+				dirs[0], dirs[i] = dirs[i], dirs[0]
+			}
+		}
+		k := g.R.Range(3, 5)
+		if k > len(dirs) {
+			k = len(dirs)
+		}
+		for i := 0; i < k; i++ {
+			cand := byDir[dirs[i]]
+			s := cand[g.R.Intn(len(cand))]
+			var piece geom.Geometry
+			if found == 0 && g.R.Chance(1, 3) { // as an edge of a triangle (first point only: members may overlap, which C01 allows, but keep it readable)
+				c := g.rp()
+				if cross(s.a, s.b, c) == 0 {
+					piece = g.line([]ip{s.a, s.b}).AsGeometry()
+				} else {
+					piece = g.polyFromRings([][]ip{{s.a, s.b, c, s.a}}).AsGeometry()
+				}
+			} else {
+				pts := []ip{s.a, s.b}
+				if g.R.Bool() {
+					pts = []ip{s.b, s.a}
+				}
+				piece = g.line(pts).AsGeometry()
+			}
+			side := i % 2
+			if i >= 2 {
+				side = g.R.Intn(2)
+			}
+			parts[side] = append(parts[side], piece)
+		}
+		found++
+	}
+	if len(parts[0]) == 0 || len(parts[1]) == 0 {
+		return a, b, false
+	}
+	mk := func(ps []geom.Geometry) geom.Geometry {
+		if g.R.Bool() { // member order matters for the order in which nodes are met
+			sh := make([]geom.Geometry, len(ps))
+			for i, j := range g.R.Perm(len(ps)) {
+				sh[i] = ps[j]
+			}
+			ps = sh
+		}
+		if len(ps) == 1 {
+			return ps[0]
+		}
+		allLines := true
+		for _, p := range ps {
+			allLines = allLines && p.IsLineString()
+		}
+		if allLines {
+			ls := make([]geom.LineString, len(ps))
+			for i, p := range ps {
+				ls[i] = p.MustAsLineString()
+			}
+			return geom.NewMultiLineString(ls).AsGeometry()
+		}
+		return geom.NewGeometryCollection(ps).AsGeometry()
+	}
+	a, b = mk(parts[0]), mk(parts[1])
+	return a, b, valid(a) && valid(b)
+}
+
+func absInt(x int) int {
+	if x < 0 {
+		return -x
+	}
+	return x
+}
+
+func gcdInt(a, b int) int {
+	for b != 0 {
+		a, b = b, a%b
+	}
+	if a == 0 {
+		return 1
+	}
+	return a
+}
